@@ -27,7 +27,7 @@ KFW == K("file", 1, 2)   KDW == K("directory", 2, 1)   KPW == K("proxy", 2, 3)  
 PatsQ == {P_a, P_sl, P_dsl}
 PatsT == {P_a, P_sl, P_dsl, P_any, P_dst}
 PatsM == {P_a, P_sl, P_dsl, P_any}
-KindsM == {KF1, KD1, KR1, KR2, KW1, KWD, KFW}
+KindsM == {KF1, KR1, KR2, KW1, KWD, KFW}
 PatsG == {P_a, P_b, P_sl, P_dsl, P_any, P_dst, P_sta, P_da}
 PathsQ == {T_a, T_b, T_da}
 PathsT == {T_a, T_b, T_da, T_root}
@@ -96,6 +96,7 @@ Inv_HostOrderRespected == \A rq \in Reqs : HostOrderRespected(cfg, rq)
 Inv_RedirectExact == \A rq \in Reqs : RedirectExact(cfg, rq)
 Inv_WsProxiedIffConfigured == \A rq \in Reqs : WsProxiedIffConfigured(cfg, rq)
 Inv_IndependentOfRest == \A rq \in Reqs : IndependentOfRest(cfg, rq)
+Inv_AllServeProps == AllServeProps(cfg, Reqs)
 Inv_LogMasks == cfg.level \in Levels /\ LogLevelMonotone /\ MaskExact /\ NoSilentDrop /\ SeverityIsFirstLevel
 Inv_LinesMonotone == LET c == [cfg EXCEPT !.timeout = 1, !.cache = TRUE] IN LinesMonotone(Session(c, StdConns(c, TRUE)).ems)
 Inv_CacheCoherent == CacheCoherent(cfg, KaConns)
